@@ -64,7 +64,7 @@ def random_step(rng, profile, allow_repack=True):
     elif profile == 'C10':
         weights.update({'pack': 7, 'repack': 7, 'add': 6})
     elif profile == 'C11':
-        weights.update({'delete': 6, 'repack': 5})
+        weights.update({'delete': 6, 'repack': 5, 'stray': 3})
     elif profile == 'C13':
         weights.update({'repack': 0, 'addpack': 8, 'reopen': 3, 'import': 3})
     if not allow_repack:
@@ -75,6 +75,8 @@ def random_step(rng, profile, allow_repack=True):
     step = {'name': name}
     if name == 'add':
         step.update(keys=[rng.choice(pool)], via=rng.choice(['bytes', 'stream']))
+    elif name == 'stray':
+        step.update(keys=[rng.choice(pool)], good=rng.random() < 0.8)
     elif name == 'readd':
         step.update(keys=[rng.choice(pool)], via=rng.choice(['bytes', 'stream']),
                     how=rng.choice(['first', 'last', 'truncate', 'empty', 'grow']))
@@ -225,6 +227,14 @@ class Runner:
                 else:
                     res = [cont.add_streamed_object(io.BytesIO(data(key)))]
                 return self.names(res), ''
+            if name == 'stray':
+                # environment: a stray copy in duplicates/ (what a Windows writer race leaves behind)
+                key = step['keys'][0]
+                blob = data(key) if step.get('good', True) else b'corrupt' + data(key)
+                import uuid  # pylint: disable=import-outside-toplevel
+                with open(os.path.join(self.folder, 'duplicates', f'{self.key_of[key]}.{uuid.uuid4().hex}'), 'wb') as handle:
+                    handle.write(blob)
+                return [], ''
             if name == 'readd':
                 key = step['keys'][0]
                 path = cont._get_loose_path_from_hashkey(self.key_of[key])  # pylint: disable=protected-access
@@ -350,6 +360,7 @@ class Runner:
                       'len': r['length'], 'z': r['compressed'], 'size': r['size'], 'tag': r['tag']}
                      for r in state['rows']],
             'packs': [{'p': p, 'len': info['len']} for p, info in sorted(state['packs'].items())],
+            'dups': sorted({self.name_of.get(name.partition('.')[0], name[:8]) for name in state['duplicates']}),
         }
         blobs = state['_blobs']
         grow = []
@@ -489,7 +500,7 @@ INVARIANTS = {
     'C03': ['C03_IndexOK'],
     'C09': ['C09_Dedup', 'C09_DamagedCopyRepaired', 'C09_NoHoles', 'C09_KnownNoGrowth', 'C09_ImportKnownNotWritten'],
     'C10': ['C10_Mode', 'C10_Sizes', 'C10_Totals', 'C10_Transparent'],
-    'C11': ['C11_DeleteExact', 'C11_RepackCompact'],
+    'C11': ['C11_DeleteExact', 'C11_RepackCompact', 'C11_DeleteRemovesDuplicates', 'C11_CleanAfterDelete'],
     'C12': ['C12_ValidateClean'],
     'C13': ['C13_AppendOnly', 'C13_Numbering', 'C13_OnlyLastGrows'],
     'C18': ['C18_NoFdLeak', 'C18_ClosedNoFds'],
